@@ -61,6 +61,10 @@ type Shape struct {
 	// Grouped (xml): every record sits in its own <grp t="A"> element, records the filter rejects in <grp t="B">; the
 	// record filter is then a predicate on a NON-final step of the FINAL_OUTPUT xpath (/root/grp[@t='A']/rec).
 	Grouped bool `json:"grouped,omitempty"`
+	// EDIRootRepeat (edi without envelope): REC is declared with max 1, so that every further REC of the input starts the
+	// top-level declaration sequence over under a fresh root (documented top-level repetition) instead of repeating
+	// inside one root.
+	EDIRootRepeat bool `json:"edi_root_repeat,omitempty"`
 	// XMLText (xml): how field values are written as character data: 0 escaped text; 1 one CDATA section; 2 text followed by
 	// a CDATA section; 3 text, a comment, text; 4 two adjacent CDATA sections; 5 text, a processing instruction, text. The
 	// character data of the element is the same in every mode (several adjacent text nodes in the tree for 2..5).
@@ -171,6 +175,9 @@ func DrawShape(t *rapid.T, o ShapeOpts) Shape {
 		}
 		s.EDI = &d
 		s.Envelope = rapid.Bool().Draw(t, "envelope")
+		if !s.Envelope {
+			s.EDIRootRepeat = rapid.IntRange(0, 2).Draw(t, "ediRootRepeat") == 0
+		}
 		if rapid.Bool().Draw(t, "hasSub") {
 			s.NSub = rapid.IntRange(1, 2).Draw(t, "nsub")
 		}
@@ -513,6 +520,13 @@ func (s Shape) transformDecls() obj {
 		// a script that needs a deep call stack (resource limits must not differ between pooled and fresh VMs)
 		fields["jdeep"] = obj{"custom_func": obj{"name": "javascript", "args": []interface{}{
 			obj{"const": "(function f(n){ return n ? 1 + f(n - 1) : 0 })(1100 + 150 * x.length)"}, obj{"const": "x"}, obj{"xpath": "c0", "no_trim": true}}}}
+		// the same context script, with no argument but the script, on two different nodes of one record: the record and its
+		// first column
+		ctxLen := func() obj {
+			return obj{"custom_func": obj{"name": "javascript_with_context", "args": []interface{}{obj{"const": "'len=' + _node.length"}}}}
+		}
+		fields["ctx0"] = ctxLen()
+		fields["onc0"] = obj{"xpath": "c0", "object": obj{"ctx0": ctxLen()}}
 		fields["ie_a"] = twin(true)
 		fields["ie_b"] = twin(false)
 		fields["pjs"] = obj{"xpath": "..", "custom_func": obj{"name": "javascript_with_context", "args": []interface{}{
@@ -675,6 +689,9 @@ func (s Shape) fileDecl() obj {
 			elems = append(elems, e)
 		}
 		rec := obj{"name": "REC", "is_target": true, "min": 0, "max": -1, "elements": elems}
+		if s.EDIRootRepeat && !s.Envelope {
+			rec["max"] = 1
+		}
 		if s.HasSubs() {
 			selems := []interface{}{}
 			for k := 0; k < s.NSub; k++ {
